@@ -85,6 +85,11 @@ CHECKS["C13"] = dict(level="model_checking", design="5 C13",
    note="Ground truth = the same query on the same data without the fault. An HTTP 200 is accepted as 'told' only when its statistics list the missing partition (cluster faults); for deadlines, size limits and the memory cap a 200 with fewer rows is a violation. The gRPC transport between leader and follower is not exercised here.",
    technique="TLA+ model checking (TLC) of the query fan-out + replay of the specification's fault vectors on the real cluster code; fault enumeration for deadlines, memory cap and the HTTP API")
 
+CHECKS["C11"] = dict(level="translation_validation", design="5 C11",
+   text="spec/GenPlan.tla defines the program space of the distributed planner (select list x WHERE incl. string literals and IN-sub-queries that contain clause keywords x GROUP BY dims / expression / nothing x period x CROSSTAB x HAVING x ORDER BY x LIMIT/OFFSET x FROM table or sub-query) and the statement's condition for pushing a query down whole (every output group confined to one partition, for every partition-key set and table grouping); TLC enumerates the descriptors with that condition, each is rendered as SQL in three lexical variants, planned by the real planner.Plan with and without QueryCluster over mock tables whose points are split over N = 1..6 partitions by the partition keys (or by all dimensions), both plans are executed and the rows, field lists and ORDER BY sequences compared; the observed pushdown decision is checked against the specification's condition.",
+   note="Per program, not for all programs at once: quick samples 1/12 of the 13158 descriptors x 4 (partition keys, table grouping, N, dataset) combinations, thorough takes all x 8. The fan-out is a sequential loop over mock partitions (the real fan-out is C10/C13). Known finding D11 (OFFSET pushed down) is listed in known_findings.json.",
+   technique="TLA+-enumerated program space (TLC) + translation validation: cluster plan vs local plan of the real planner executed on split data")
+
 NOT_YET = {}
 
 
